@@ -1581,8 +1581,9 @@ impl HasChildren for XmlDocument {
                     Ok(value)
                 }
             }
-            XmlItem::Element(_) => {
-                if self.document_element().is_ok() {
+            XmlItem::Element(v) => {
+                // one document element: a second one is refused, the document element itself may be moved
+                if self.document_element().is_ok_and(|root| !Rc::ptr_eq(&root, v)) {
                     Err(error::Error::InvalidType)
                 } else {
                     add_or_insert(self, value.clone(), id);
